@@ -141,6 +141,14 @@ pub enum Step {
     Reconnect {
         #[serde(default)]
         connack: Vec<Prop>,
+        /// between the two connections: place the packet identifier counter (verification hook)
+        #[serde(default)]
+        setid: Option<u16>,
+    },
+    /// programs only: while on, the broker's PUBCOMPs are held back (they are delivered, in order, when it is
+    /// switched off) -- exchanges then stay in their PUBREL state
+    Hold {
+        on: bool,
     },
     // ---- environment decisions -------------------------------------------------------------
     W {
